@@ -54,6 +54,10 @@ COLS = {
     "constraint_message": [("constraint_message", "jr:constraintMsg"), ("constraining_message", "jr:constraintMsg")],
     "required_message": [("required_message", "jr:requiredMsg"), ("requiredmsg", "jr:requiredMsg")],
     "custom": [("bind::foo", "foo"), ("bind::jr:bar", "jr:bar")],
+    # a message that is never itext unless translated, also when it holds a reference
+    "noapp": [("noAppErrorString", "jr:noAppErrorString"), ("bind::jr:noAppErrorString", "jr:noAppErrorString")],
+    # a language column of a message, standing left or right of its unsuffixed twin (column order is rotated)
+    "cmsg_fr": [("constraint_message::fr", "jr:constraintMsg"), ("constraint_message::fr", "jr:constraintMsg")],
     "param": [("parameters", None), ("parameters", None)],
 }
 KEYS = list(COLS)
@@ -97,8 +101,10 @@ def build(case):
         hdr, attr = COLS[c][case["a"]]
         if c == "param":
             cells.append((hdr, PARAM[base][0], None, c))
-        elif c in ("constraint_message", "required_message"):
+        elif c in ("constraint_message", "required_message", "noapp"):
             cells.append((hdr, "msg " + val, attr, c))
+        elif c == "cmsg_fr":
+            cells.append((hdr, "msgfr", attr, c))
         else:
             cells.append((hdr, val, attr, c))
     if base == "calculate" and "calculation" not in case["cols"]:
@@ -151,8 +157,13 @@ def expected_bind(case, cells):
     for hdr, v, attr, c in cells:
         if c == "param":
             e.update(PARAM[base][1])
+        elif c == "cmsg_fr":
+            pass
         else:
             e[attr] = CONV.get(v, v) if attr in CONVERTIBLE else v
+    if any(c == "cmsg_fr" for _, _, _, c in cells):
+        plain = next((v for _, v, _, c in cells if c == "constraint_message"), None)
+        e["jr:constraintMsg"] = ("ITEXT", {"fr": "msgfr", "default": plain})
     return e
 
 
@@ -171,9 +182,11 @@ def check_one(case):
     viol = []
     tyname = TYPE_CELLS[case["ty"]].split()[0]
     itx = {}
+    itl = {}
     for lang, d, texts in obs.itext:
         for tid, vals in texts:
             itx.setdefault(tid, []).append(vals)
+            itl.setdefault(tid, {})[lang] = vals
 
     def compare(name, exp, who):
         bs = bm.get(f"{base}/{name}", [])
@@ -189,6 +202,23 @@ def check_one(case):
                 viol.append((f"bind-attribute-dropped:{who}:{lk}:{tyname if who == 'own' and lk in ('type', 'preload', 'preloadParams') else ''}", f"want {k}={w!r} got {got}"))
             elif w is None:
                 viol.append((f"bind-attribute-unexpected:{who}:{lk}", f"{k}={g!r} cols={case['cols']}"))
+            elif isinstance(w, tuple):
+                # translated message: itext reference, one entry per language with exactly the text written for it
+                tid = f"{base}/{name}:jr:{lk}"
+                if g != f"jr:itext('{tid}')":
+                    viol.append((f"translated-message-not-itext:{who}:{lk}", f"{g!r}"))
+                else:
+                    for lang, text in w[1].items():
+                        vals = itl.get(tid, {}).get(lang)
+                        shown = None if vals is None else next((norm_ws(O.flat_text(el)) for form, el in vals if form is None), None)
+                        if text is None:
+                            if lang in {lg for lg, _, _ in obs.itext} and shown not in (None, "-"):
+                                viol.append((f"translated-message-text:{who}:{lk}", f"{lang}: shown {shown!r}, nothing was written"))
+                        else:
+                            want_t = norm_ws(text)
+                            okt = shown is not None and (shown == want_t or ("${" in text and shown.startswith("msg ")))
+                            if not okt:
+                                viol.append((f"translated-message-text:{who}:{lk}", f"{lang}: shown {shown!r} want {want_t!r}"))
             elif "${" in w:
                 if lk in ("constraintMsg", "requiredMsg"):
                     ref = f"jr:itext('{base}/{name}:jr:{lk}')"
@@ -196,7 +226,9 @@ def check_one(case):
                         viol.append((f"message-not-itext:{who}:{lk}", f"{g!r}"))
                     else:
                         ents = itx.get(f"{base}/{name}:jr:{lk}", [])
-                        ok = bool(ents) and all(any(form is None and norm_ws(O.flat_text(el)).startswith("msg ") for form, el in vals) for vals in ents)
+                        shown = [next((norm_ws(O.flat_text(el)) for form, el in vals if form is None), None) for vals in ents]
+                        # written once (unsuffixed): that text in one language, the explicit placeholder in any other
+                        ok = bool(ents) and sum(1 for t in shown if t and t.startswith("msg ")) == 1 and all(t == "-" or (t and t.startswith("msg ")) for t in shown)
                         if not ok:
                             viol.append((f"message-itext-entry:{who}:{lk}", str(len(ents))))
                 else:
